@@ -48,6 +48,23 @@ def runner_facts(prog, cls):
                     if isinstance(n, ast.Call) and isinstance(n.func, ast.Name) and n.func.id in params and n.func.id in ("payload", "task", "fnc", "func"):
                         if fi.name not in facts["monitors"]:
                             facts["monitors"].append(fi.name)
+    # module-level monitors: functions of the runners package that a method of the class refers to by name and that
+    # invoke their `payload` parameter (a monitor that needs no `self` may live outside the class)
+    facts["monitor_fis"] = {}
+    pkg = cls.module.name.rpartition(".")[0]
+    for fis in cls.methods.values():
+        for fi in fis:
+            for n in ast.walk(fi.node):
+                if isinstance(n, ast.Name) and isinstance(n.ctx, ast.Load):
+                    r = prog.resolve(fi.module, n)
+                    g = prog.functions.get(r) if r else None
+                    if g is None or g.cls is not None or not g.module.name.startswith(pkg):
+                        continue
+                    gp = g.params()
+                    if any(isinstance(c, ast.Call) and isinstance(c.func, ast.Name) and c.func.id in gp and c.func.id in ("payload", "task", "fnc", "func") for c in ast.walk(g.node)):
+                        if g.name not in facts["monitors"]:
+                            facts["monitors"].append(g.name)
+                        facts["monitor_fis"][g.name] = g
     ff = facts.get("failure_future")
     if ff:
         for fis in cls.methods.values():
@@ -57,6 +74,59 @@ def runner_facts(prog, cls):
                         if fi.name not in facts["signal_helpers"] and fi.name not in facts["monitors"]:
                             facts["signal_helpers"].append(fi.name)
     return facts
+
+
+def trio_structure(prog, cls):
+    """how the runner starts its single trio run: {'start_fn', 'form' ('call' | 'handed'), 'entry', 'owned'}
+    call:    a synchronous own method contains trio.run(self.<entry>) and is handed to run_in_executor
+    handed:  run_in_executor(<executor>, trio.run, self.<entry>) directly
+    owned = the entry coroutine plus the own coroutines only ever awaited from owned ones"""
+    start_fn = entry = None
+    form = None
+    for fis in cls.methods.values():
+        for fi in fis:
+            par = util.parents_map(fi.node)
+            for n in ast.walk(fi.node):
+                if isinstance(n, ast.Call) and prog.resolve(fi.module, n.func) == "ext:trio.run" and n.args:
+                    d = util.dotted(n.args[0])
+                    if d and d.startswith("self."):
+                        start_fn, form, entry = fi, "call", prog.lookup_method(cls, d.split(".")[1])
+                elif isinstance(n, ast.Attribute) and prog.resolve(fi.module, n) == "ext:trio.run":
+                    up = par.get(id(n))
+                    if isinstance(up, ast.Call) and up.func is not n and isinstance(up.func, ast.Attribute) and up.func.attr == "run_in_executor" and len(up.args) >= 3 and up.args[1] is n:
+                        d = util.dotted(up.args[2])
+                        if d and d.startswith("self."):
+                            start_fn, form, entry = fi, "handed", prog.lookup_method(cls, d.split(".")[1])
+    if start_fn is None or entry is None:
+        return None
+    owned = {entry.name}
+    changed = True
+    while changed:
+        changed = False
+        for fis in cls.methods.values():
+            for f in fis:
+                if f.name in owned or not f.is_async:
+                    continue
+                refs = []
+                for gs in cls.methods.values():
+                    for g_ in gs:
+                        par = util.parents_map(g_.node)
+                        for x in ast.walk(g_.node):
+                            if isinstance(x, ast.Attribute) and x.attr == f.name and isinstance(x.value, ast.Name) and x.value.id == "self":
+                                up = par.get(id(x))
+                                refs.append((g_.name, isinstance(up, ast.Call) and up.func is x and isinstance(par.get(id(up)), ast.Await)))
+                if refs and all(nm in owned and aw for nm, aw in refs):
+                    owned.add(f.name)
+                    changed = True
+    return {"start_fn": start_fn, "form": form, "entry": entry, "owned": owned}
+
+
+def monitor_fi(prog, cls, name):
+    """the FuncInfo of a monitor named in runner_facts(...)["monitors"]: an own method or a module-level function"""
+    m = prog.lookup_method(cls, name)
+    if m is not None:
+        return m
+    return runner_facts(prog, cls)["monitor_fis"].get(name)
 
 
 def binding_rule(chk, rule, fi, forward_attr):
